@@ -3,10 +3,15 @@ C29 — Array-object structural operations keep data and metadata aligned.
 
 Statements are about the executable model `AbtemVerif.ArrObj` of `abtem.array.ArrayObject`'s structural
 operations (hand model; every operation of the model is compared with the real method, eager and lazy, on
-every run).  Quantifiers: every object (any ensemble axes, any base dims, any shape and data), every item
+every run).  The model describes the tree after the fixes 79236f6f (reductions with keepdims), 45743dfc
+(`get_items(keepdims=True)`) and a113d2f7 (`expand_dims`), whose counter-example theorems were replaced by
+`reduce_keepdims_aligned`, `keepdims_slice_selects_the_item` / `keepdims_out_of_range_refused` and
+`expandDims_single_position`.  Quantifiers: every object (any ensemble axes, any base dims, any shape and data), every item
 tuple / axis tuple.
 -/
 import AbtemVerif.Model.ArrayObject
+import Mathlib.Tactic.Ring
+import Mathlib.Data.Rat.Defs
 
 namespace AbtemVerif.Props.C29
 open AbtemVerif.ArrObj
@@ -22,10 +27,23 @@ theorem check_ok_iff (o o' : Obj) : check o = .ok o' ↔ (WF o = true ∧ o' = o
 /-! ### indexing -/
 
 /-- slicing an ordinal axis and slicing the dimension use the same index list: the lengths agree -/
-theorem ordinal_len_eq_dim (l : Int) (vs : List Int) (idx : List Nat) :
-    axisGet (.ordinal l vs) idx = .ordinal l (idx.map fun i => vs.getD i 0) ∧
+theorem ordinal_len_eq_dim (l : Int) (vs : List Int) (idx : List Nat) (fwd : Option (Int × Int)) :
+    axisGet (.ordinal l vs) idx fwd = .ordinal l (idx.map fun i => vs.getD i 0) ∧
     (idx.map fun i => vs.getD i 0).length = idx.length := by
   simp [axisGet]
+
+/-- coordinate `k` of a linear axis -/
+def coord (off samp : Rat) (k : Nat) : Rat := off + k * samp
+
+/-- a forward slice `start::step` of a linear axis is the linear axis whose `k`-th coordinate is the coordinate of the
+selected item `start + k·step` (metadata of the selected items is carried along) -/
+theorem linear_slice_coordinates (t : Int) (off samp : Rat) (idx : List Nat) (start step : Nat) (k : Nat) :
+    ∃ off' samp', axisGet (.linear t off samp) idx (some ((start : Int), (step : Int))) = .linear t off' samp' ∧
+      coord off' samp' k = coord off samp (start + k * step) := by
+  refine ⟨off + (start : Int) * samp, samp * (step : Int), by simp [axisGet], ?_⟩
+  simp only [coord]
+  push_cast
+  ring
 
 theorem axesFit_nil (as : List Axis) : axesFit as [] = true := by
   cases as <;> simp [axesFit]
@@ -54,16 +72,17 @@ theorem selectAxes_fit : (sels : List Sel) → (axes : List Axis) → (dims : Li
       apply selectAxes_fit ss as dims
       · simpa [nonesUnknown] using hu
       · simpa using h
-  | .keep idx :: ss, a :: as, [], md, _, _ => by
+  | .keep idx fwd :: ss, a :: as, [], md, _, _ => by
       simp only [selectAxes, selShape]
       exact axesFit_nil _
-  | .keep idx :: ss, a :: as, n :: dims, md, hu, h => by
+  | .keep idx fwd :: ss, a :: as, n :: dims, md, hu, h => by
       have ih := selectAxes_fit ss as dims md (by simpa [nonesUnknown] using hu) (by simpa using h)
       simp only [selectAxes, selShape]
       cases a with
       | ordinal l vs => simp [axisGet, axesFit, ih]
       | other t => simp [axisGet, axesFit, ih]
       | unknown => simp [axisGet, axesFit, ih]
+      | linear t off samp => cases fwd <;> simp [axisGet, axesFit, ih]
   | .newaxis :: ss, a :: as, dims, md, hu, h => by
       simp only [nonesUnknown, Bool.and_eq_true, beq_iff_eq] at hu
       have ih := selectAxes_fit ss as dims md hu.2 (by simpa using h)
@@ -140,7 +159,8 @@ theorem too_many_indices_refused (o : Obj) (items : List Item) (h1 : items.any (
     (h2 : (items.filter (· != .none)).length > o.shape.length - o.baseDims) :
     getItems o items false = .error .runtime_error := by
   unfold getItems validateItems
-  simp [h1, h2]
+  have h3 : o.shape.length - o.baseDims < (items.filter (· != .none)).length := h2
+  simp [h1, h3]
 
 /-- `Ellipsis` is rejected -/
 theorem ellipsis_refused (o : Obj) (items : List Item) (h1 : items.any (· == .ellipsis) = true) :
@@ -159,43 +179,463 @@ theorem getItems_aligned (o o' : Obj) (items : List Item) (k : Bool) (h : getIte
       · simp at h
       · exact ((check_ok_iff _ _).mp h).2 ▸ ((check_ok_iff _ _).mp h).1
 
-/-! ### recorded defects of the current tree (negation witnesses, replayed by the harness) -/
+/-! ### reductions (after fix 79236f6f) -/
 
-/-- F15: `sum(axis, keepdims=True)` over an ordinal axis with more than one item raises instead of returning the
-NumPy-shaped result with one axis-metadata entry per dimension -/
+theorem keepAxes_length : (as : List Axis) → (i : Nat) → (ax : List Nat) → (keepAxes as i ax).length = as.length
+  | [], _, _ => rfl
+  | _ :: as, i, ax => by simp [keepAxes, keepAxes_length as (i + 1) ax]
+
+theorem keepShape_length : (ns : List Nat) → (i : Nat) → (ax : List Nat) → (keepShape ns i ax).length = ns.length
+  | [], _, _ => rfl
+  | _ :: ns, i, ax => by simp [keepShape, keepShape_length ns (i + 1) ax]
+
+/-- with `keepdims=True` the kept metadata fits the kept shape: a reduced ordinal axis either has one value
+or is replaced by a label-only axis, every dimension that is reduced has length one -/
+theorem keepAxes_fit : (as : List Axis) → (ns : List Nat) → (i : Nat) → (ax : List Nat) →
+    axesFit as ns = true → axesFit (keepAxes as i ax) (keepShape ns i ax) = true
+  | [], _, _, _, _ => by simp [keepAxes, axesFit]
+  | a :: as, [], _, _, _ => by simp [keepShape]; exact axesFit_nil _
+  | a :: as, n :: ns, i, ax, h => by
+      cases a with
+      | ordinal l vs =>
+        simp only [axesFit, Bool.and_eq_true, beq_iff_eq] at h
+        have ih := keepAxes_fit as ns (i + 1) ax h.2
+        by_cases hc : i ∈ ax
+        · by_cases hv : vs.length = 1
+          · simp [keepAxes, keepShape, hc, hv, axesFit, ih]
+          · simp [keepAxes, keepShape, hc, hv, axesFit, ih]
+        · simp [keepAxes, keepShape, hc, axesFit, ih, h.1]
+      | other t =>
+        simp only [axesFit] at h
+        have ih := keepAxes_fit as ns (i + 1) ax h
+        by_cases hc : i ∈ ax <;> simp [keepAxes, keepShape, hc, axesFit, ih]
+      | unknown =>
+        simp only [axesFit] at h
+        have ih := keepAxes_fit as ns (i + 1) ax h
+        by_cases hc : i ∈ ax <;> simp [keepAxes, keepShape, hc, axesFit, ih]
+      | linear t off samp =>
+        simp only [axesFit] at h
+        have ih := keepAxes_fit as ns (i + 1) ax h
+        by_cases hc : i ∈ ax <;> simp [keepAxes, keepShape, hc, axesFit, ih]
+
+/-- without `keepdims` the metadata of the removed dimensions is removed with them -/
+theorem dropAt_fit : (as : List Axis) → (ns : List Nat) → (i : Nat) → (ax : List Nat) →
+    axesFit as ns = true → axesFit (dropAt as i ax) (dropAt ns i ax) = true
+  | [], _, _, _, _ => by simp [dropAt, axesFit]
+  | a :: as, [], _, _, _ => by simp [dropAt]; exact axesFit_nil _
+  | a :: as, n :: ns, i, ax, h => by
+      have ht : axesFit as ns = true := by
+        cases a <;> simp_all [axesFit]
+      have ih := dropAt_fit as ns (i + 1) ax ht
+      by_cases hc : i ∈ ax
+      · simp [dropAt, hc, ih]
+      · cases a <;> simp_all [dropAt, axesFit]
+
 def failsRuntime (r : Except Err Obj) : Bool :=
   match r with
   | .error .runtime_error => true
   | _ => false
 
-theorem reduce_keepdims_ordinal_counterexample :
-    ¬ (∀ (o : Obj) (axes : List Int), WF o = true → failsRuntime (reduce o axes false) = false →
-        failsRuntime (reduce o axes true) = false) := by
-  intro h
-  have := h ⟨[.ordinal 1 [10, 20]], 0, [2], [1, 2], []⟩ [0] (by decide) (by decide)
-  revert this
-  decide
+theorem check_wf_not_runtime (x : Obj) (h : WF x = true) : failsRuntime (check x) = false := by
+  simp [check, h, failsRuntime]
 
-/-- `get_items(-1, keepdims=True)` turns `-1` into `slice(-1, 0)`: nothing is selected -/
-theorem keepdims_minus_one_counterexample :
-    ¬ (∀ (o o' : Obj) (i : Int), getItems o [.int i] true = .ok o' → o'.shape.head? = some 1) := by
-  intro h
-  have := h ⟨[.other 1], 0, [3], [0, 1, 2], []⟩ _ (-1) rfl
-  revert this
-  decide
+theorem keep_wf (o : Obj) (axN : List Nat) (d : List Int) (hwf : WF o = true) :
+    WF { o with ens := keepAxes o.ens 0 axN, shape := keepShape o.shape 0 axN, data := d } = true := by
+  simp only [WF, Bool.and_eq_true, beq_iff_eq] at hwf ⊢
+  exact ⟨by simp [keepAxes_length, keepShape_length, hwf.1], keepAxes_fit _ _ _ _ hwf.2⟩
 
-/-- `expand_dims((2, 0))`: the metadata entries are inserted one after the other, so the first one moves -/
-theorem expand_dims_unsorted_counterexample :
-    ¬ (∀ (o o' : Obj) (axes : List Int) (new : List Axis), expandDims o axes new = .ok o' →
-        ∀ p ∈ axes, 0 ≤ p → o'.ens.getD p.toNat .unknown ∈ new) := by
-  intro h
-  have := h ⟨[.other 1, .other 2], 0, [2, 3], [0, 1, 2, 3, 4, 5], []⟩ _ [2, 0] [.other 8, .other 9] rfl 2 (by decide) (by decide)
-  revert this
-  decide
+/-- F15 REPAIRED.  `sum(axis, keepdims=True)` on an aligned object never ends in the constructor's RuntimeError: the
+only RuntimeError left is the deliberate refusal of base axes. -/
+theorem reduce_keepdims_aligned (o : Obj) (axes : List Int) (hwf : WF o = true)
+    (hbase : (axes.map fun a => if a ≥ 0 then a else a + (o.shape.length : Int)).any
+      (fun a => a ≥ ((o.shape.length : Int) - o.baseDims) && a < (o.shape.length : Int)) = false) :
+    failsRuntime (reduce o axes true) = false := by
+  unfold reduce
+  simp only [hbase, Bool.false_eq_true, if_false, Bool.true_and]
+  split
+  · rfl
+  · split
+    · rfl
+    · split
+      · rfl
+      · simp only [↓reduceIte]
+        exact check_wf_not_runtime _ (keep_wf o _ _ hwf)
+
+/-! ### `get_items(…, keepdims=True)` (after fix 45743dfc) -/
+
+/- an integer index that is accepted is in range; the slice it is rewritten to selects exactly its item -/
+theorem intIndex_ok (i : Int) (n j : Nat) (h : intIndex i n = .ok j) :
+    (0 ≤ i ∧ i < n ∧ (j : Int) = i) ∨ (i < 0 ∧ 0 ≤ i + n ∧ (j : Int) = i + n) := by
+  unfold intIndex at h
+  by_cases hneg : i < 0
+  · simp only [hneg, if_true] at h
+    split at h
+    · simp at h
+    · rename_i hb
+      simp only [Bool.or_eq_true, decide_eq_true_eq, not_or, not_lt, not_le] at hb
+      simp only [Except.ok.injEq] at h
+      right; omega
+  · simp only [hneg, if_false] at h
+    split at h
+    · simp at h
+    · rename_i hb
+      simp only [Bool.or_eq_true, decide_eq_true_eq, not_or, not_lt, not_le] at hb
+      simp only [Except.ok.injEq] at h
+      left; omega
+
+theorem pyRange_one (s : Int) (f : Nat) : pyRange s (s + 1) 1 (f + 1 + 1) = [s] := by
+  simp [pyRange]
+
+theorem keepdims_slice_selects_the_item (i : Int) (n j : Nat) (h : intIndex i n = .ok j) :
+    sliceIndices (some i) (if i = -1 then none else some (i + 1)) none n = .ok [j] := by
+  have hcases := intIndex_ok i n j h
+  obtain ⟨m, rfl⟩ : ∃ m, n = m + 1 := by
+    cases n with
+    | zero => exfalso; omega
+    | succ m => exact ⟨m, rfl⟩
+  unfold sliceIndices
+  have h10 : ((1 : Int) == 0) = false := rfl
+  simp only [Option.getD_none, h10, Bool.false_eq_true, if_false]
+  rcases hcases with ⟨h0, hlt, hj⟩ | ⟨hneg, hge, hj⟩
+  · have hm1 : i ≠ -1 := by omega
+    have e1 : ¬ (i < 0) := by omega
+    have e2 : ¬ (i ≥ ((m + 1 : Nat) : Int)) := by omega
+    have e3 : ¬ (i + 1 < 0) := by omega
+    simp only [hm1, if_false, e1, e2, e3, show ¬ ((1:Int) < 0) by decide, decide_false, Bool.false_eq_true]
+    by_cases e4 : i + 1 ≥ ((m + 1 : Nat) : Int)
+    · have hr : pyRange i ((m + 1 : Nat) : Int) 1 (m + 1 + 1) = [i] := by
+        have := pyRange_one i m
+        rwa [show i + 1 = ((m + 1 : Nat) : Int) by omega] at this
+      simp only [e4, if_true, hr]
+      simp; omega
+    · have hr := pyRange_one i m
+      simp only [e4, if_false, hr]
+      simp; omega
+  · have e1 : ¬ (i + ((m + 1 : Nat) : Int) < 0) := by omega
+    have e2 : ¬ (i + ((m + 1 : Nat) : Int) ≥ ((m + 1 : Nat) : Int)) := by omega
+    by_cases hm1 : i = -1
+    · subst hm1
+      have : ((m + 1 : Nat) : Int) - 1 + 1 = ((m + 1 : Nat) : Int) := by omega
+      simp only [if_true, hneg, e1, e2, if_false, show ¬ ((1:Int) < 0) by decide, decide_false, Bool.false_eq_true]
+      have hr : pyRange (-1 + ((m + 1 : Nat) : Int)) ((m + 1 : Nat) : Int) 1 (m + 1 + 1) = [-1 + ((m + 1 : Nat) : Int)] := by
+        have := pyRange_one (-1 + ((m + 1 : Nat) : Int)) m
+        rwa [show -1 + ((m + 1 : Nat) : Int) + 1 = ((m + 1 : Nat) : Int) by omega] at this
+      rw [hr]; simp; omega
+    · have e3 : i + 1 < 0 := by omega
+      have e4 : ¬ (i + 1 + ((m + 1 : Nat) : Int) < 0) := by omega
+      have e5 : ¬ (i + 1 + ((m + 1 : Nat) : Int) ≥ ((m + 1 : Nat) : Int)) := by omega
+      simp only [hm1, if_false, hneg, if_true, e1, e2, e3, e4, e5, show ¬ ((1:Int) < 0) by decide, decide_false, Bool.false_eq_true]
+      have hr : pyRange (i + ((m + 1 : Nat) : Int)) (i + 1 + ((m + 1 : Nat) : Int)) 1 (m + 1 + 1) = [i + ((m + 1 : Nat) : Int)] := by
+        have := pyRange_one (i + ((m + 1 : Nat) : Int)) m
+        rwa [show i + ((m + 1 : Nat) : Int) + 1 = i + 1 + ((m + 1 : Nat) : Int) by omega] at this
+      rw [hr]; simp; omega
+
+/-- an out-of-range integer is refused (IndexError) instead of silently selecting nothing -/
+theorem keepdims_out_of_range_refused (i : Int) (n : Nat) (its : List Item) (dims : List Nat)
+    (h : i < -(n : Int) ∨ i ≥ (n : Int)) : keepdimsItems (.int i :: its) (n :: dims) = .error .index_error := by
+  simp [keepdimsItems, h]
+
+/-! ### `expand_dims` (after fix a113d2f7) -/
+
+/-- a single new axis sits exactly at the requested position of the ensemble axes (positions count in the expanded
+array, negative positions from its end) -/
+theorem expandDims_single_position (o o' : Obj) (a : Int) (am : Axis)
+    (h : expandDims o [a] [am] = .ok o') :
+    o'.ens = pyInsert o.ens (if a ≥ 0 then a else a + ((o.shape.length + 1 : Nat) : Int)) am := by
+  simp only [expandDims, normAxes, List.map_cons, List.map_nil, List.length_cons, List.length_nil] at h
+  by_cases hc : ([if a ≥ 0 then a else a + ((o.shape.length + (0 + 1) : Nat) : Int)].any fun a =>
+      decide (a < 0) || decide (a ≥ ((o.shape.length - o.baseDims + (0 + 1) : Nat) : Int))) = true
+  · rw [if_pos hc] at h; simp at h
+  · rw [if_neg hc] at h
+    cases hs : expandShape? o.shape [(if a ≥ 0 then a else a + ((o.shape.length + (0 + 1) : Nat) : Int)).toNat] with
+    | none => rw [hs] at h; simp at h
+    | some shape' =>
+      rw [hs] at h
+      have := (check_ok_iff _ _).mp h
+      rw [this.2]
+      simp [sortByPos, insertByPos, List.zip]
+
+/-- unsorted and negative axis tuples: both new entries land at their positions (this was the recorded defect) -/
+example : (expandDims ⟨[.other 1, .other 2], 0, [2, 3], [0, 1, 2, 3, 4, 5], []⟩ [2, 0] [.other 8, .other 9]).toOption.map (·.ens)
+    = some [.other 9, .other 1, .other 8, .other 2] := by decide
+example : (expandDims ⟨[.other 1, .other 2], 0, [2, 3], [0, 1, 2, 3, 4, 5], []⟩ [-1, 0] [.other 8, .other 9]).toOption.map (fun o => (o.ens, o.shape))
+    = some ([.other 9, .other 1, .other 2, .other 8], [1, 2, 3, 1]) := by decide
+
+/-! ### the whole `get_items` call: alignment is preserved (composition of the lemmas above) -/
+
+def nn (items : List Item) : Nat := (items.filter (· != .none)).length
+def nonNew (sels : List Sel) : Nat := (sels.filter (· != .newaxis)).length
+def kept (sels : List Sel) : Nat := (sels.filter fun s => match s with | .drop _ => false | _ => true).length
+
+theorem resolve_counts : (items : List Item) → (dims : List Nat) → (sels : List Sel) →
+    resolve items dims = .ok sels → sels.length = items.length ∧ nonNew sels = nn items
+  | [], _, sels, h => by simp [resolve] at h; subst h; simp [nonNew, nn]
+  | .none :: its, dims, sels, h => by
+      simp only [resolve] at h
+      cases hr : resolve its dims with
+      | error e => simp [hr] at h
+      | ok r =>
+        simp [hr] at h; subst h
+        have := resolve_counts its dims r hr
+        simp [nonNew, nn] at this ⊢
+        exact this
+  | .int i :: its, [], sels, h => by simp [resolve] at h
+  | .slice a b c :: its, [], sels, h => by simp [resolve] at h
+  | .list l :: its, [], sels, h => by simp [resolve] at h
+  | .ellipsis :: its, dims, sels, h => by cases dims <;> simp [resolve] at h
+  | .int i :: its, n :: dims, sels, h => by
+      simp only [resolve] at h
+      cases hi : intIndex i n with
+      | error e => simp [hi] at h
+      | ok j =>
+        cases hr : resolve its dims with
+        | error e => simp [hi, hr] at h
+        | ok r =>
+          simp [hi, hr] at h; subst h
+          have := resolve_counts its dims r hr
+          simp [nonNew, nn] at this ⊢
+          exact this
+  | .slice a b c :: its, n :: dims, sels, h => by
+      simp only [resolve] at h
+      cases hi : sliceIndices a b c n with
+      | error e => simp [hi] at h
+      | ok j =>
+        cases hr : resolve its dims with
+        | error e => simp [hi, hr] at h
+        | ok r =>
+          simp [hi, hr] at h; subst h
+          have := resolve_counts its dims r hr
+          simp [nonNew, nn] at this ⊢
+          exact this
+  | .list l :: its, n :: dims, sels, h => by
+      simp only [resolve] at h
+      cases hi : listIndices l n with
+      | error e => simp [hi] at h
+      | ok j =>
+        cases hr : resolve its dims with
+        | error e => simp [hi, hr] at h
+        | ok r =>
+          simp [hi, hr] at h; subst h
+          have := resolve_counts its dims r hr
+          simp [nonNew, nn] at this ⊢
+          exact this
+
+theorem nn_cons_none (its : List Item) : nn (.none :: its) = nn its := by simp [nn]
+theorem nn_cons_ne (it : Item) (its : List Item) (h : it ≠ .none) : nn (it :: its) = nn its + 1 := by
+  simp [nn, h]
+
+/-- past the items, the `None`-expanded axes are the axes past the dimensions the items consumed -/
+theorem expandNones_drop : (items : List Item) → (ens : List Axis) → nn items ≤ ens.length →
+    (expandNones items ens).drop items.length = ens.drop (nn items) ∧
+    (expandNones items ens).length = ens.length + (items.length - nn items) ∧ nn items ≤ items.length
+  | [], ens, _ => by simp [expandNones, nn]
+  | .none :: its, ens, h => by
+      rw [nn_cons_none] at h ⊢
+      have ih := expandNones_drop its ens h
+      simp only [expandNones, List.length_cons, List.drop_succ_cons]
+      refine ⟨ih.1, ?_, ?_⟩ <;> omega
+  | .int i :: its, [], h => by rw [nn_cons_ne _ _ (by simp)] at h; simp at h
+  | .slice a b c :: its, [], h => by rw [nn_cons_ne _ _ (by simp)] at h; simp at h
+  | .list l :: its, [], h => by rw [nn_cons_ne _ _ (by simp)] at h; simp at h
+  | .ellipsis :: its, [], h => by rw [nn_cons_ne _ _ (by simp)] at h; simp at h
+  | .int i :: its, a :: ens, h => by
+      rw [nn_cons_ne _ _ (by simp)] at h ⊢
+      have ih := expandNones_drop its ens (by simpa using h)
+      simp only [expandNones, List.length_cons, List.drop_succ_cons]
+      refine ⟨ih.1, ?_, ?_⟩ <;> omega
+  | .slice x y z :: its, a :: ens, h => by
+      rw [nn_cons_ne _ _ (by simp)] at h ⊢
+      have ih := expandNones_drop its ens (by simpa using h)
+      simp only [expandNones, List.length_cons, List.drop_succ_cons]
+      refine ⟨ih.1, ?_, ?_⟩ <;> omega
+  | .list l :: its, a :: ens, h => by
+      rw [nn_cons_ne _ _ (by simp)] at h ⊢
+      have ih := expandNones_drop its ens (by simpa using h)
+      simp only [expandNones, List.length_cons, List.drop_succ_cons]
+      refine ⟨ih.1, ?_, ?_⟩ <;> omega
+  | .ellipsis :: its, a :: ens, h => by
+      rw [nn_cons_ne _ _ (by simp)] at h ⊢
+      have ih := expandNones_drop its ens (by simpa using h)
+      simp only [expandNones, List.length_cons, List.drop_succ_cons]
+      refine ⟨ih.1, ?_, ?_⟩ <;> omega
+
+theorem axesFit_drop : (as : List Axis) → (ns : List Nat) → (k : Nat) → axesFit as ns = true →
+    axesFit (as.drop k) (ns.drop k) = true
+  | as, ns, 0, h => by simpa using h
+  | [], ns, k + 1, _ => by simp [axesFit]
+  | a :: as, [], k + 1, _ => by simp; exact axesFit_nil _
+  | a :: as, n :: ns, k + 1, h => by
+      have ht : axesFit as ns = true := by cases a <;> simp_all [axesFit]
+      simpa using axesFit_drop as ns k ht
+
+theorem selShape_length : (sels : List Sel) → (dims : List Nat) → nonNew sels ≤ dims.length →
+    (selShape sels dims).length = kept sels + (dims.length - nonNew sels)
+  | [], dims, _ => by simp [selShape, kept, nonNew]
+  | .newaxis :: ss, dims, h => by
+      have h' : nonNew ss ≤ dims.length := by simpa [nonNew] using h
+      have ih := selShape_length ss dims h'
+      simp [selShape, kept, nonNew] at ih ⊢
+      omega
+  | .drop i :: ss, [], h => by simp [nonNew] at h
+  | .keep idx f :: ss, [], h => by simp [nonNew] at h
+  | .drop i :: ss, n :: dims, h => by
+      have h' : nonNew ss ≤ dims.length := by simp [nonNew] at h ⊢; omega
+      have ih := selShape_length ss dims h'
+      simp [selShape, kept, nonNew] at ih ⊢
+      omega
+  | .keep idx f :: ss, n :: dims, h => by
+      have h' : nonNew ss ≤ dims.length := by simp [nonNew] at h ⊢; omega
+      have ih := selShape_length ss dims h'
+      simp [selShape, kept, nonNew] at ih ⊢
+      omega
+
+theorem selectAxes_length : (sels : List Sel) → (axes : List Axis) → (md : List (Int × Int)) → sels.length ≤ axes.length →
+    (selectAxes sels axes md).1.length = kept sels + (axes.length - sels.length)
+  | [], axes, md, _ => by simp [selectAxes, kept]
+  | _ :: _, [], md, h => by simp at h
+  | .drop i :: ss, a :: as, md, h => by
+      have ih := fun md' => selectAxes_length ss as md' (by simpa using h)
+      simp [selectAxes, kept, ih]
+  | .keep idx f :: ss, a :: as, md, h => by
+      have ih := selectAxes_length ss as md (by simpa using h)
+      simp [selectAxes, kept] at ih ⊢
+      omega
+  | .newaxis :: ss, a :: as, md, h => by
+      have ih := selectAxes_length ss as md (by simpa using h)
+      simp [selectAxes, kept] at ih ⊢
+      omega
+
+/-- THE ALIGNMENT OF `get_items`.  For an aligned object and any item tuple that passes the validator and resolves
+against the ensemble shape (ints in range, any slices, `None`s, index lists), the selected metadata and the selected
+array are aligned again: one axis-metadata entry per dimension, ordinal axes with one value per item. -/
+theorem getItems_result_wf (o : Obj) (its : List Item) (sels : List Sel) (d : List Int) (m : List (Int × Int))
+    (hwf : WF o = true) (hn : nn its ≤ o.ens.length)
+    (hr : resolve its (o.shape.take (o.shape.length - o.baseDims)) = .ok sels) :
+    WF { o with ens := (selectAxes sels (expandNones its o.ens) o.md).1, shape := selShape sels o.shape,
+                data := d, md := m } = true := by
+  simp only [WF, Bool.and_eq_true, beq_iff_eq] at hwf ⊢
+  obtain ⟨hlen, hfit⟩ := hwf
+  obtain ⟨hsl, hnn⟩ := resolve_counts _ _ _ hr
+  obtain ⟨hdrop, hexl, hle⟩ := expandNones_drop its o.ens hn
+  constructor
+  · rw [selShape_length sels o.shape (by rw [hnn]; omega),
+        selectAxes_length sels (expandNones its o.ens) o.md (by rw [hsl, hexl]; omega)]
+    rw [hnn, hsl, hexl]
+    omega
+  · apply selectAxes_fit
+    · exact resolve_nonesUnknown its _ o.ens sels hn hr
+    · rw [hsl, hdrop]
+      show axesFit (List.drop (nn its) o.ens) (List.drop (nonNew sels) o.shape) = true
+      rw [hnn]
+      exact axesFit_drop _ _ _ hfit
+
+theorem intIndex_err (i : Int) (n : Nat) (e : Err) (h : intIndex i n = .error e) : e = .index_error := by
+  unfold intIndex at h
+  by_cases hc : (decide ((if i < 0 then i + (n : Int) else i) < 0) || decide ((if i < 0 then i + (n : Int) else i) ≥ (n : Int))) = true
+  · simp only [hc, if_true] at h; simpa using h.symm
+  · simp only [hc] at h; simp at h
+
+theorem sliceIndices_err (a b c : Option Int) (n : Nat) (e : Err) (h : sliceIndices a b c n = .error e) : e = .value_error := by
+  unfold sliceIndices at h
+  by_cases hc : (c.getD 1 == 0) = true
+  · simp only [hc, if_true] at h; simpa using h.symm
+  · simp only [hc] at h; simp at h
+
+theorem listIndices_err : (l : List Int) → (n : Nat) → (e : Err) → listIndices l n = .error e → e = .index_error
+  | [], n, e, h => by simp [listIndices, pure, Except.pure] at h
+  | i :: l, n, e, h => by
+      simp only [listIndices, List.mapM_cons] at h
+      cases hi : intIndex i n with
+      | error e1 =>
+        have := intIndex_err i n e1 hi
+        simp [hi, bind, Except.bind] at h
+        rw [← h, this]
+      | ok j =>
+        simp only [hi, bind, Except.bind] at h
+        cases hl : List.mapM (fun i => intIndex i n) l with
+        | error e2 =>
+          simp only [hl] at h
+          have := listIndices_err l n e2 (by simpa [listIndices] using hl)
+          simp at h
+          rw [← h, this]
+        | ok r => simp [hl, pure, Except.pure] at h
+
+/-- resolving items never produces a RuntimeError (only IndexError / ValueError / NotImplementedError) -/
+theorem resolve_no_runtime : (items : List Item) → (dims : List Nat) → resolve items dims ≠ .error .runtime_error
+  | [], _ => by simp [resolve]
+  | .none :: its, dims => by
+      simp only [resolve]
+      cases hr : resolve its dims with
+      | error e => simp only; intro hc; simp at hc; exact resolve_no_runtime its dims (hc ▸ hr)
+      | ok r => simp
+  | .int i :: its, [] => by simp [resolve]
+  | .slice a b c :: its, [] => by simp [resolve]
+  | .list l :: its, [] => by simp [resolve]
+  | .ellipsis :: its, dims => by cases dims <;> simp [resolve]
+  | .int i :: its, n :: dims => by
+      simp only [resolve]
+      cases hi : intIndex i n with
+      | error e => have := intIndex_err i n e hi; subst this; cases resolve its dims <;> simp
+      | ok j =>
+        cases hr : resolve its dims with
+        | error e => simp only; intro hc; simp at hc; exact resolve_no_runtime its dims (hc ▸ hr)
+        | ok r => simp
+  | .slice a b c :: its, n :: dims => by
+      simp only [resolve]
+      cases hi : sliceIndices a b c n with
+      | error e => have := sliceIndices_err a b c n e hi; subst this; cases resolve its dims <;> simp
+      | ok j =>
+        cases hr : resolve its dims with
+        | error e => simp only; intro hc; simp at hc; exact resolve_no_runtime its dims (hc ▸ hr)
+        | ok r => simp
+  | .list l :: its, n :: dims => by
+      simp only [resolve]
+      cases hi : listIndices l n with
+      | error e => have := listIndices_err l n e hi; subst this; cases resolve its dims <;> simp
+      | ok j =>
+        cases hr : resolve its dims with
+        | error e => simp only; intro hc; simp at hc; exact resolve_no_runtime its dims (hc ▸ hr)
+        | ok r => simp
+
+theorem validateItems_plain (items : List Item) (dims : List Nat) :
+    validateItems items dims false =
+      if items.any (· == .ellipsis) then .error .not_implemented
+      else if nn items > dims.length then .error .runtime_error else .ok items := by
+  simp [validateItems, nn]
+
+/-- … hence indexing an aligned object never ends in the constructor's RuntimeError; the only RuntimeError of
+`__getitem__` is the deliberate "too many indices" refusal. -/
+theorem getItems_never_misaligned (o : Obj) (items : List Item) (hwf : WF o = true)
+    (hn : nn items ≤ o.shape.length - o.baseDims) : failsRuntime (getItems o items false) = false := by
+  have hens : o.shape.length - o.baseDims = o.ens.length := by
+    simp only [WF, Bool.and_eq_true, beq_iff_eq] at hwf; omega
+  have hlen : (o.shape.take (o.shape.length - o.baseDims)).length = o.shape.length - o.baseDims := by
+    simp
+  simp only [getItems]
+  rw [validateItems_plain, hlen]
+  by_cases hell : (items.any (· == .ellipsis)) = true
+  · simp [hell, failsRuntime]
+  · rw [if_neg hell, if_neg (by omega)]
+    simp only
+    split
+    · rfl
+    · cases hr : resolve items (o.shape.take (o.shape.length - o.baseDims)) with
+      | error e =>
+        have := resolve_no_runtime items (o.shape.take (o.shape.length - o.baseDims))
+        rw [hr] at this
+        cases e <;> simp_all [failsRuntime]
+      | ok sels =>
+        simp only
+        exact check_wf_not_runtime _ (getItems_result_wf o items sels _ _ hwf (by rw [← hens]; exact hn) hr)
+
 
 /-! ### non-vacuity -/
 example : getItems ⟨[.ordinal 1 [10, 20, 30], .other 5], 1, [3, 2, 2], (List.range 12).map Int.ofNat, []⟩
       [.int (-1), .slice none none (some 2)] false
     = .ok ⟨[.other 5], 1, [1, 2], [8, 9], [(1, 30)]⟩ := by rfl
+example : (reduce ⟨[.ordinal 1 [10, 20]], 0, [2], [1, 2], []⟩ [0] true).toOption.map (fun o => (o.ens, o.shape, o.data))
+    = some ([.other 1], [1], [3]) := by decide
+example : (getItems ⟨[.other 1], 0, [3], [0, 1, 2], []⟩ [.int (-1)] true).toOption.map (fun o => (o.shape, o.data))
+    = some ([1], [2]) := by decide
 
 end AbtemVerif.Props.C29
